@@ -1,5 +1,6 @@
 import FlowRecordProofs.Lemmas.KwCtor
 import FlowRecordProofs.Lemmas.Json
+import FlowRecordProofs.Lemmas.Readers
 /-!
 C14 — JSON lines output round-trips and is plain JSON.
 
@@ -239,3 +240,26 @@ theorem C14_keyword_constructor_keeps_values {V : Type} (x pos : V) :
     (FlowRecord.Gen.tplKwInit = FlowRecord.KwCtor.frozenInit ∧ FlowRecord.Gen.tplKwUnpack = FlowRecord.KwCtor.frozenUnpack) ∧
     FlowRecord.KwCtor.slotValue (some x) pos = x ∧ FlowRecord.KwCtor.slotValue (none : Option V) pos = pos :=
   ⟨FlowRecord.KwCtor.template_is_frozen, rfl, rfl⟩
+
+
+/-- The reading half at the level of lines: `JsonfileReader.__iter__` hands EVERY line of the file to the packer (the
+    regenerated `Gen.jsonLoopUnpacksEveryLine`: the loop runs over the file, its first statement unpacks the line,
+    nothing skips a line or leaves the loop), so a file of record lines whose descriptors are known yields, without
+    selector, exactly those records in that order and ends normally - whatever the handle, the number of lines, the
+    records. -/
+theorem C14_reader_yields_every_record_line {I R E : Type} [DecidableEq I] (nf : E) (reg : List I)
+    (ls : List (I × R)) (h : ∀ p ∈ ls, reg.contains p.1 = true) :
+    Gen.jsonLoopUnpacksEveryLine = true ∧
+    Readers.jsonLoop Readers.genCfg.json nf (none : Option (Readers.Matcher R E)) reg
+        (ls.map fun p => Readers.JsonLine.record p.1 p.2) = ⟨ls.map (·.2), none⟩ := by
+  refine ⟨by decide, ?_⟩
+  induction ls with
+  | nil => simp [Readers.jsonLoop, Readers.Run.done]
+  | cons p t ih =>
+    have hp := h p List.mem_cons_self
+    have ht := ih (fun q hq => h q (List.mem_cons_of_mem _ hq))
+    simp only [List.map_cons, Readers.jsonLoop, hp, if_true, ht, Readers.emit, Readers.accepts, Readers.Run.cons]
+    split <;> simp_all
+
+example : Readers.jsonLoop Readers.genCfg.json "nf" (none : Option (Readers.Matcher Nat String)) [1]
+    [.record 1 10, .descriptor 2, .record 2 20] = ⟨[10, 20], none⟩ := by decide
